@@ -24,6 +24,15 @@ MUST_HAVE = {
     "Compound", "EmptyStatement", "Pragma", "StaticAssert",
 }
 ILLEGAL = ["@", "`", "\\"]
+# classes whose coordinate must be the token that opens the construct
+# ("a token of the input that lies inside the construct the node represents")
+ANCHOR = {
+    "If": {"if"}, "While": {"while"}, "For": {"for"}, "DoWhile": {"do"}, "Switch": {"switch"},
+    "Case": {"case"}, "Default": {"default"}, "Return": {"return"}, "Break": {"break"},
+    "Continue": {"continue"}, "Goto": {"goto"}, "CompoundLiteral": {"("}, "Cast": {"("},
+    "StaticAssert": {"_Static_assert"}, "Enum": {"enum"}, "Alignas": {"_Alignas"},
+    "Compound": {"{", "pragma", "("},  # a pragma-prefixed statement is wrapped at its first pragma
+}
 
 
 def base_layouts(n):
@@ -106,6 +115,12 @@ def check_ast(ast, lay, fails, text, counts):
             want = node.name
         elif cls == "Label":
             want = node.name
+        anchor = ANCHOR.get(cls)
+        if cls == "UnaryOp" and node.op in ("sizeof", "_Alignof"):
+            anchor = {node.op}
+        if anchor is not None and t.value not in anchor:
+            fails.append((f"{cls}:outside-construct", {"text": text, "filename": FILENAME},
+                          f"{c}: token {t.value!r} is not the token that opens a {cls} ({sorted(anchor)})"))
         if want is not None and t.value != want:
             if cls == "ID" and want in ("offsetof", "*"):
                 pass
@@ -126,14 +141,15 @@ def _dirs(g):
     return {g: [layout.line_directive(100 + 7 * g, f"inc{g}.h", flags=(1,), keyword=(g % 2 == 0))]}
 
 
-def evaluate(toks, lname, g, counts):
+def evaluate(toks, lname, g, counts, filename=None):
     """Render one (layout, linemarker gap) variant and evaluate every clause.
     Returns (accepted, fails)."""
+    filename = FILENAME if filename is None else filename
     seps = dict(base_layouts(len(toks)))[lname]
-    lay = layout.lay_out(toks, seps, _dirs(g), filename=FILENAME)
-    o = core.parse_outcome(lay.text, FILENAME)
+    lay = layout.lay_out(toks, seps, _dirs(g), filename=filename)
+    o = core.parse_outcome(lay.text, filename)
     fails = []
-    case = {"tokens": toks, "layout": lname, "gap": g, "text": lay.text}
+    case = {"tokens": toks, "layout": lname, "gap": g, "text": lay.text, "filename": filename}
     if o[0] != "ok":
         if g is not None:
             fails.append(("rejected-with-linemarker", case, str(o[1:])[:100]))
@@ -198,6 +214,11 @@ def _work(task):
                 if not acc and g is None:
                     break
                 ok_any = ok_any or acc
+                # the unnamed file "" (parse() without a file name) for short programs
+                if nt <= 14 and lname == "line" and not isinstance(g, tuple):
+                    acc2, fl2 = evaluate(toks, lname, g, counts, filename="")
+                    n += 1
+                    fails.extend(fl2)
         if ok_any:
             progs += 1
     return n, fails, counts, progs
@@ -275,7 +296,7 @@ def replay(rep):
     if "ch" in c:
         fl = evaluate_error(c["tokens"], c["layout"], c["pos"], c["ch"])
     else:
-        _, fl = evaluate(c["tokens"], c["layout"], c["gap"], {})
+        _, fl = evaluate(c["tokens"], c["layout"], c["gap"], {}, c.get("filename"))
     for sig, _, det in fl:
         print(" ", sig, "-", det)
     if not fl:
